@@ -63,13 +63,13 @@ type vhC15Loader interface {
 	stamp(n string) (int64, bool) // modification time, and whether the loader is timestamp-aware
 }
 
-func (l *vhTSLoader) hasName(n string) bool        { return l.has[n] }
-func (l *vhTSLoader) version(n string) int         { return l.ver[n] }
-func (l *vhTSLoader) reads(n string) int           { return l.loads[n] }
-func (l *vhTSLoader) stamp(n string) (int64, bool) { return l.mtime[n], true }
-func (l *vhPlainLoader) hasName(n string) bool     { return l.has[n] }
-func (l *vhPlainLoader) version(n string) int      { return l.ver[n] }
-func (l *vhPlainLoader) reads(n string) int        { return l.loads[n] }
+func (l *vhTSLoader) hasName(n string) bool           { return l.has[n] }
+func (l *vhTSLoader) version(n string) int            { return l.ver[n] }
+func (l *vhTSLoader) reads(n string) int              { return l.loads[n] }
+func (l *vhTSLoader) stamp(n string) (int64, bool)    { return l.mtime[n], true }
+func (l *vhPlainLoader) hasName(n string) bool        { return l.has[n] }
+func (l *vhPlainLoader) version(n string) int         { return l.ver[n] }
+func (l *vhPlainLoader) reads(n string) int           { return l.loads[n] }
 func (l *vhPlainLoader) stamp(n string) (int64, bool) { return 0, false }
 
 // VH_C15_Cache: two loaders (the first timestamp-aware, the second timestamp-aware or plain), two names,
